@@ -154,6 +154,12 @@ def observe(trace, res, solver, prog, oid, cfg0, meta):
     return o
 
 
+def work_bound(x):
+    """work bound of a run (events): the longest run on the unchanged tree has 2.8 events per line-or-input, this allows 40 (a run
+    that goes round in circles makes every step slower than the last, so the bound stays near what a finite solve can need)"""
+    return min(2000, max(200, 40 * (2 + len(x["all_lines"]) + len(x["all_inputs"]))))
+
+
 def scenarios_for(prog, x, rng, per_prog):
     """-> list of dicts: cfg0, answers, prompt, at, sched, reqorder, key.  Runs with the same key were given the
     same values for every input (by file or by prompt, any schedule, any request order) and must agree."""
@@ -216,7 +222,7 @@ def real_runs(programs, rng, per_prog, snap="full"):
                 rng.shuffle(request)
             meta = {"prog": prog["id"], "cfg0": cfg0, "answers": answers, "prompt": has_prompt, "at": sc.get("at"), "sched": sched, "request": request}
             trace, res, solver = runs.run_traced(forms, runs.make_config(cfg0), request, prog["fieldNames"], user=user,
-                                                 chooser=chooser, mode="prog", snap=snap, tid=tid, body=x["body"], meta=meta, max_events=2000,
+                                                 chooser=chooser, mode="prog", snap=snap, tid=tid, body=x["body"], meta=meta, max_events=work_bound(x),
                                                  names=list(x["formOf"].keys()))
             traces.append(trace)
             if trace.get("overflow"):
@@ -239,7 +245,7 @@ def real_runs(programs, rng, per_prog, snap="full"):
                     meta2 = dict(meta)
                     meta2.update({"whatif": name, "cfg0": cfg2})
                     t2, r2, s2 = runs.run_traced(forms, None, request, prog["fieldNames"], user=None, chooser=None, mode="prog", snap=snap, tid=tid,
-                                                 body=x["body"], meta=meta2, max_events=2000, names=list(x["formOf"].keys()), store=store)
+                                                 body=x["body"], meta=meta2, max_events=work_bound(x), names=list(x["formOf"].keys()), store=store)
                     traces.append(t2)
                     if not t2.get("overflow"):
                         obs.append(observe(t2, r2, s2, prog, tid, cfg2, meta2))
@@ -255,7 +261,7 @@ def real_runs(programs, rng, per_prog, snap="full"):
                     meta3 = dict(meta)
                     meta3.update({"cfg0": cfg3, "unread_invalid": unread[0]})
                     t3, r3, s3 = runs.run_traced(forms, runs.make_config(cfg3), request, prog["fieldNames"], user=None, chooser=None, mode="prog", snap=snap,
-                                                 tid=tid, body=x["body"], meta=meta3, max_events=2000, names=list(x["formOf"].keys()))
+                                                 tid=tid, body=x["body"], meta=meta3, max_events=work_bound(x), names=list(x["formOf"].keys()))
                     traces.append(t3)
                     if not t3.get("overflow"):
                         obs.append(observe(t3, r3, s3, prog, tid, cfg3, meta3))
@@ -319,7 +325,7 @@ def all_schedules(prog, x, forms, cfg0, cap):
     while True:
         ch.reset()
         tr, res, solver = runs.run_traced(forms, runs.make_config(cfg0), list(prog["request"]), prog["fieldNames"], user=None, chooser=ch,
-                                          mode="prog", snap="none", tid=0, body=None, max_events=2000, names=list(x["formOf"].keys()))
+                                          mode="prog", snap="none", tid=0, body=None, max_events=work_bound(x), names=list(x["formOf"].keys()))
         canon = json.dumps(res if res["abort"] == "" else {"abort": "some"}, sort_keys=True)
         results.setdefault(canon, list(ch.prefix))
         n += 1
@@ -367,7 +373,7 @@ def default_section_runs(programs, rng):
             meta = {"prog": prog["id"], "default_section": dflt, "cfg0": explicit, "answers": answers, "prompt": True, "sched": "rnd" if k == 1 else "nat",
                     "request": list(prog["request"])}
             trace, res, solver = runs.run_traced(forms, conf, list(prog["request"]), prog["fieldNames"], user=runs.ScriptedUser(answers), chooser=chooser,
-                                                 mode="prog", snap="none", tid=oid, body=x["body"], meta=meta, max_events=2000, names=list(x["formOf"].keys()))
+                                                 mode="prog", snap="none", tid=oid, body=x["body"], meta=meta, max_events=work_bound(x), names=list(x["formOf"].keys()))
             if trace.get("overflow"):
                 continue
             o = observe(trace, res, solver, prog, oid, explicit, meta)
@@ -526,7 +532,7 @@ def run(pid, tier):
                             open(path, "w").write(text)
                             try:
                                 tr, res, solver = runs.run_traced(forms, path, list(prog["request"]), prog["fieldNames"], user=None, chooser=None, mode="prog",
-                                                                  snap="none", tid=0, body=x["body"], max_events=2000, names=list(x["formOf"].keys()))
+                                                                  snap="none", tid=0, body=x["body"], max_events=work_bound(x), names=list(x["formOf"].keys()))
                                 canon = json.dumps(res if res["abort"] == "" else {"abort": "some"}, sort_keys=True)
                             except Exception as e:     # noqa -- the file is refused before the solve starts
                                 canon = "refused:" + type(e).__name__
